@@ -169,13 +169,16 @@ def family(kind, b, v):
 
 class Check(PropertyCheck):
     prop = "C09"
-    module = "LLBuild.Props.C09"
+    module = "LLBuild.Props.C09All"
     theorems = ["LLBuild.Signature.C09_sig_injective", "LLBuild.Signature.C09_sig_injective_external",
                 "LLBuild.Signature.C09_sig_pure", "LLBuild.Signature.C09_sig_defined",
                 "LLBuild.Signature.C09_seed_fixed", "LLBuild.Signature.C09_prefix_not_injective",
                 "LLBuild.Signature.C09_prefix_external_not_injective",
                 "LLBuild.Signature.C09_prefix_collision_inputs_outputs", "LLBuild.Signature.C09_prefix_collision_args_env",
-                "LLBuild.Signature.C09_prefix_collision_deps_style"]
+                "LLBuild.Signature.C09_prefix_collision_deps_style",
+                # history half, on the abstract engine (tie to BuildEngine.cpp: the engine checks C01/C02)
+                "LLBuild.Engine.C02_null_build_after_build", "LLBuild.Engine.C09_changed_definition_reruns",
+                "LLBuild.Engine.C09_changed_definition_signature_differs", "LLBuild.Engine.C09_unchanged_definition_needs_other_reason"]
     extractors = ["x_signature"]
     harnesses = [("vc09", "plain")]
     assumptions = [
